@@ -21,17 +21,17 @@ theorem cond_jne (a b : Nat) (ha : a < 2 ^ 63) (hb : b < 2 ^ 63) : Model.ISAVal.
   · simp [Model.ISAVal.cond, h1]
 
 /-- `CMPQ reg, $n; Jcc pc` with a known outcome -/
-theorem guard_reach {r : Routine} {k idx pc reg : Nat} {n : Nat} {mn : Mn}
-    (hs : Slice r k [ins .CMPQ [G reg, .imm (n : Nat)] 0, ins mn [.target pc] 0]) (hmn : isJcc mn = true)
-    (hl : findPc r pc = some (r.drop idx)) (s : State) (hreg : reg < s.gpr.length) (v : Nat) (hv : greg s reg = v) (hn : n < 2 ^ 64) (c : Bool)
+theorem guard_reach {r : Routine} {k idx pc reg : Nat} {ci : Int} {mn : Mn}
+    (hs : Slice r k [ins .CMPQ [G reg, .imm ci] 0, ins mn [.target pc] 0]) (hmn : isJcc mn = true)
+    (hl : findPc r pc = some (r.drop idx)) (s : State) (hreg : reg < s.gpr.length) (v n : Nat) (hv : greg s reg = v) (hn : imm64 ci = n) (c : Bool)
     (hc : Model.ISAVal.cond mn (subF 8 v n).2 = .ok c) :
     Reach r k s (if c then idx else k + 2) (setFlags s (subF 8 v n).2) 2 := by
-  have sC : Slice r k [ins .CMPQ [G reg, .imm (n : Nat)] 0] := Slice.left (a := [_]) (b := [_]) hs
+  have sC : Slice r k [ins .CMPQ [G reg, .imm ci] 0] := Slice.left (a := [_]) (b := [_]) hs
   have sJ : Slice r (k + 1) [ins mn [.target pc] 0] := Slice.right (a := [_]) (b := [_]) hs
-  have hx0 : execList [ins .CMPQ [G reg, .imm (n : Nat)] 0] s = .ok (setFlags s (subF 8 v n).2) := by
+  have hx0 : execList [ins .CMPQ [G reg, .imm ci] 0] s = .ok (setFlags s (subF 8 v n).2) := by
     apply exec_step (s1 := setFlags s (subF 8 v n).2)
-    · have := a_cmpq_imm s (n : Nat) reg hreg
-      rw [hv, imm64_natCast n hn] at this; exact this
+    · have := a_cmpq_imm s ci reg hreg
+      rw [hv, hn] at this; exact this
     rfl
   have r0 : Reach r k s (k + 1) _ 1 := reach_seg sC (by rfl) hx0
   have rJ := reach_jcc (r := r) (k := k + 1) (idx := idx) sJ hmn hl (s := setFlags s (subF 8 v n).2) hc
@@ -39,6 +39,10 @@ theorem guard_reach {r : Routine} {k idx pc reg : Nat} {n : Nat} {mn : Mn}
   cases c
   · exact this
   · exact this
+
+theorem imm64_256 : imm64 256 = 256 := by decide +kernel
+theorem imm64_128 : imm64 128 = 128 := by decide +kernel
+theorem imm64_32 : imm64 32 = 32 := by decide +kernel
 
 /-- the memory of the ladder: destination and scratch buffers, round keys and the input -/
 structure LadMem (M2 : List Nat → List Nat → List Region) (dbase dlen tp : Nat) (rk src : List Nat) (sp : Nat) : Prop where
